@@ -191,6 +191,13 @@ static carquet_status_t add_column_internal(
     carquet_field_repetition_t repetition,
     int32_t type_length) {
 
+    /* The schema (root + columns) and every row group (one chunk per column) must stay
+     * within what the metadata parser accepts */
+    if (writer->num_columns + 2 > parquet_max_schema_elements() ||
+        writer->num_columns + 1 > parquet_max_columns_per_row_group()) {
+        return CARQUET_ERROR_INVALID_SCHEMA;
+    }
+
     /* Expand capacity if needed */
     if (writer->num_columns >= writer->column_capacity) {
         int32_t new_cap = writer->column_capacity == 0 ? 8 : writer->column_capacity * 2;
@@ -240,6 +247,12 @@ static carquet_status_t add_column_internal(
 static carquet_status_t ensure_row_group(carquet_writer_t* writer) {
     if (writer->current_row_group) {
         return CARQUET_OK;
+    }
+
+    /* One more row group than the metadata parser accepts would make a file that
+     * cannot be opened again: the rows are refused, the file can still be closed */
+    if (writer->num_row_groups >= parquet_max_row_groups()) {
+        return CARQUET_ERROR_INVALID_METADATA;
     }
 
     writer->current_row_group = carquet_row_group_writer_create(
